@@ -728,11 +728,15 @@ func (g *pGen) block(vis []string, declaredHere map[string]bool, depth int, inLo
 					known = true
 				}
 			}
-			if !known && (g.r.P(70) || !declaredHere[name]) && !declaredHere[name] {
+			if (!known || (depth >= 1 && g.r.P(35))) && !declaredHere[name] { // also re-declared over an outer cursor of the same name
 				g.curUID++
 				out = append(out, &pStmt{k: "cursor", name: name, limit: 1000 + g.curUID})
 				declaredHere[name] = true
 				vis = append(vis, name)
+				if known && g.inCurLoop == 0 && g.r.P(70) {
+					out = append(out, &pStmt{k: "show_cursors"}) // the listing inside the block shows the block's own cursor
+					g.features["showcursors"] = true
+				}
 			} else if known && g.inCurLoop == 0 && g.r.P(50) {
 				out = append(out, &pStmt{k: "show_cursors"})
 				g.features["showcursors"] = true
